@@ -177,6 +177,7 @@ package raft
 //@   ensures [RV.prevote-frame] request.Prevote ==> r.currentTerm == old(r.currentTerm) && r.votedFor == old(r.votedFor) && r.state == old(r.state) && persTerm == old(persTerm) && persVote == old(persVote) && r.lastContact == old(r.lastContact)
 //@   ensures [RV.grant] err == nil && response.VoteGranted && !request.Prevote ==> r.votedFor == request.CandidateID && r.currentTerm == request.Term && (request.Term > old(r.currentTerm) || old(r.votedFor) == "" || old(r.votedFor) == request.CandidateID)
 //@   ensures [RV.up-to-date] err == nil && response.VoteGranted ==> upToDate(request)
+//@   ensures [RV.stale-term] err == nil && request.Term < old(r.currentTerm) ==> !response.VoteGranted && r.currentTerm == old(r.currentTerm) && r.votedFor == old(r.votedFor)
 //@   ensures [RV.reply-term] err == nil ==> response.Term >= old(r.currentTerm) && response.Term <= r.currentTerm
 //@   ensures [RV.sticky-lease] old(r.state) != Shutdown && old(r.operationManager.leaderLease.expiration) > now ==> !response.VoteGranted && r.currentTerm == old(r.currentTerm) && r.votedFor == old(r.votedFor) && r.state == old(r.state)
 //@   ensures [RV.sticky-contact] old(r.state) != Shutdown && now - old(r.lastContact) < r.options.electionTimeout ==> !response.VoteGranted && r.currentTerm == old(r.currentTerm) && r.votedFor == old(r.votedFor) && r.state == old(r.state)
@@ -510,15 +511,17 @@ package raft
 
 //@ spec matchSet(r, index) = setof(fid string : fid != r.id && r.configuration.IsVoter[fid] && r.followers[fid].matchIndex >= index)
 
+// selfVote: what the node itself contributes to a count of voters (nothing if it is a non-voting member)
+//@ spec selfVote(r) = ite(r.configuration.IsVoter[r.id], 1, 0)
 //@ func Raft.commitLoop
-//@   at before-assign r.commitIndex assert [commit-rule] r.state == Leader && index > r.commitIndex && index <= Llast && Lterm[index] == r.currentTerm && matches == 1 + cnt(dom(r.followers), matchSet(r, index)) && 2*matches > cntVoters(r.configuration)
+//@   at before-assign r.commitIndex assert [commit-rule] r.state == Leader && index > r.commitIndex && index <= Llast && Lterm[index] == r.currentTerm && matches == selfVote(r) + cnt(dom(r.followers), matchSet(r, index)) && 2*matches > cntVoters(r.configuration)
 //@   loop for index invariant [bounds] r.commitIndex < index && r.commitIndex >= old(r.commitIndex) && r.commitIndex <= Llast
-//@   loop range r.followers invariant [matches] matches == 1 + cnt(visited, matchSet(r, index))
+//@   loop range r.followers invariant [matches] matches == selfVote(r) + cnt(visited, matchSet(r, index))
 
 //@ func Raft.sendAppendEntries
 //@   flags splitexits
 //@   assume [A-NOOVF] Llast < 17592186044416
-//@   requires [spawn-self-counted] numResponses != nil ==> *numResponses == 1
+//@   requires [spawn-self-counted] numResponses != nil ==> *numResponses == selfVote(r)
 //@   release s1 [leader-id] r.state == Leader && request.Term == r.currentTerm && request.LeaderID == r.id
 //@   release s1 [wf] WF(request) && request.LeaderCommit == r.commitIndex && r.lastIncludedIndex <= request.PrevLogIndex
 //@   release s1 [entries-verbatim] forall j int :: 0 <= j && j < len(request.Entries) ==> request.Entries[j].Term == Lterm[request.PrevLogIndex+1+j] && request.Entries[j].EntryType == Ltyp[request.PrevLogIndex+1+j] && request.Entries[j].Data == Ldata[request.PrevLogIndex+1+j]
